@@ -7,8 +7,8 @@ import tempfile
 from lib.core import *
 
 ID = "C19"
-PROPS_FILES = ["Gama/Props/C19.lean"]
-LEAN_TARGETS = ["Gama.Props.C19"]
+PROPS_FILES = ["Gama/Props/C19.lean", "Gama/Props/C19Dump.lean"]
+LEAN_TARGETS = ["Gama.Props.C19", "Gama.Props.C19Dump"]
 DRIVERS = ["drv_g3"]
 RULE = ("stream lin: single Model::linearization(T*) calls on 1-3 points anywhere on the ellipsoid (poles, equator, "
         "antimeridian), sights up to 57 deg off the horizontal, every n/e/u state combination incl. fixed n,e + free u "
@@ -134,6 +134,24 @@ def cmp_lines(impl, model, stat):
             if is_hex(x):
                 stat["hex_tokens"] = stat.get("hex_tokens", 0) + 1
                 stat["hex_identical"] = stat.get("hex_identical", 0) + (1 if x == y else 0)
+    return None
+
+
+def hom_cmp(impl, model, stat):
+    """homogenised rows A_dot, b_dot: model (dense restatement of the block Cholesky) vs class Adj"""
+    if len(impl) != len(model):
+        return "line count %d vs %d: %s | %s" % (len(impl), len(model), (impl or ["-"])[0][:80], (model or ["-"])[0][:80])
+    for a, b in zip(impl, model):
+        ta, tb = a.split(), b.split()
+        if len(ta) != len(tb):
+            return "token count: %s | %s" % (a[:120], b[:120])
+        scale = max([abs(hex2float(x)) for x in ta if is_hex(x)] + [1.0])
+        for x, y in zip(ta, tb):
+            if not tok_equal(x, y, rtol=1e-9, atol=1e-12 * scale):
+                return "%s: %s vs %s" % (" ".join(ta[:3]), x, y)
+            if is_hex(x):
+                stat["hom_tokens"] = stat.get("hom_tokens", 0) + 1
+                stat["hom_identical"] = stat.get("hom_identical", 0) + (1 if x == y else 0)
     return None
 
 
@@ -827,21 +845,21 @@ def correspond(ctx, corr):
             nets.append(gross_error(ctx.rng, net))
 
     # ---- correspondence: harness on the XML, driver on the data the harness extracted
-    hcases = [["xml " + gen.to_xml(n), "adjrt", "adjust " + ctx.rng.choice(ALGS)] for n in nets]
+    hcases = [["xml " + gen.to_xml(n), "adjrt", "homog", "adjust " + ctx.rng.choice(ALGS)] for n in nets]
     impl, crashes = run_cases(exe, hcases)
     # cases in which Model::update_adjustment would read adj->x()(0) (finding G8): the harness skipped the adjustment;
     # run them again one by one without the guard — on /repo HEAD the sanitizer aborts (failing input), on a repaired
     # tree the result is compared like any other
     skipped = [i for i, out in enumerate(impl) if i not in crashes and any(l.startswith("res adjust-skipped") for l in out)]
     if skipped:
-        again, cr2 = run_cases(exe, [[hcases[i][0], hcases[i][2].replace("adjust ", "adjust! ")] for i in skipped])
+        again, cr2 = run_cases(exe, [[hcases[i][0], hcases[i][3].replace("adjust ", "adjust! ")] for i in skipped])
         for k, i in enumerate(skipped):
             corr.count("result_cases_with_an_adjusted_height_without_column")
             if k in cr2:
                 nm = [l.split()[-1] for l in impl[i] if l.startswith("res adjust-skipped")][0]
                 corr.fail(f"Model::update_adjustment reads adj->x()(0) (outside the solution vector) for point {nm}: its "
                           "height is free / constrained but has no column (no active observation refers to it)",
-                          {"stream": "g3-result", "net": nets[i], "xml": gen.to_xml(nets[i], newline="\n"), "alg": hcases[i][2]},
+                          {"stream": "g3-result", "net": nets[i], "xml": gen.to_xml(nets[i], newline="\n"), "alg": hcases[i][3]},
                           "Model::update_adjustment", cr2[k][1])
             else:
                 impl[i] = impl[i] + [l for l in again[k] if l.startswith(("data adj ", "data qxx ", "data ref ", "res stat ", "res pt "))]
@@ -851,7 +869,7 @@ def correspond(ctx, corr):
         evs = [l for l in out if l.startswith("ev ")]
         # `data adj / qxx / ref` (what update_adjustment read from class Adj) only set state; `result` recomputes
         # the statistics and the per-point results from them
-        dcases.append(data + ["run"] + evs + ["adjrt"] + (["result"] if any(l.startswith("data adj ") for l in out) else []))
+        dcases.append(data + ["run", "hom"] + evs + ["adjrt"] + (["result"] if any(l.startswith("data adj ") for l in out) else []))
     model, mcr = run_cases(ctx.driver("drv_g3"), dcases)
     stat = {}
     for i, n in enumerate(nets):
@@ -876,6 +894,34 @@ def correspond(ctx, corr):
                       {"stream": "g3-harness", "net": n, "xml": gen.to_xml(n, newline="\n")}, "DataParser/Model")
             continue
         RESULT = ("res stat ", "res pt ")
+        # round 9: the homogenised system of class Adj on gama-g3's own input (weights from the cluster covariances)
+        ihom = [l for l in impl[i] if l.startswith("hom ")]
+        mhom = [l for l in model[i] if l.startswith("hom ") and not l.startswith("hom bd ")]
+        mbd = [l.split()[2:] for l in model[i] if l.startswith("hom bd ")]
+        model[i] = [l for l in model[i] if not l.startswith("hom ")]
+        impl[i] = [l for l in impl[i] if not l.startswith("hom ")]
+        why = hom_cmp(ihom, mhom, stat)
+        if why:
+            corr.disagree("g3-homogenised", {"net": n, "xml": xmltxt[:3000]}, ihom[:40], mhom[:40], why)
+        elif ihom and ihom[0].startswith("hom dim"):
+            corr.count("homogenised_systems_compared")
+            if any(c.get("cov", {}).get("band", 0) for c in n.get("clusters", [])):
+                corr.count("homogenised_systems_with_correlated_cluster")
+        else:
+            corr.count("homogenised_systems_refused_on_both_sides")
+        if mbd and (mbd[0][0] != mbd[0][2] or mbd[0][1] != mbd[0][3]):
+            corr.fail("BlockDiagonal is allocated for %s blocks / %s doubles (Cluster::update's act_nonz) but add_block receives "
+                      "%s blocks / %s doubles" % tuple(mbd[0]), {"stream": "g3-bd-sizing", "net": n, "xml": gen.to_xml(n, newline="\n")},
+                      "Model::update_linearization")
+        # dm_floats adequacy on the implementation's own numbers: SparseMatrix(dm_floats, …) receives exactly dm_floats elements
+        dmf = [l.split() for l in impl[i] if l.startswith("res dm ")]
+        matf = [l.split() for l in impl[i] if l.startswith("res mat ")]
+        if dmf and matf:
+            corr.count("dm_floats_checks")
+            if dmf[0][4] != matf[0][4] or dmf[0][2] != matf[0][2]:
+                corr.fail("dm_floats / dm_rows reserved by the revisions (%s floats, %s rows) differ from what the linearisation "
+                          "loop wrote into the sparse matrix (%s floats, %s rows)" % (dmf[0][4], dmf[0][2], matf[0][4], matf[0][2]),
+                          {"stream": "g3-dm-floats", "net": n, "xml": gen.to_xml(n, newline="\n")}, "Model::revision / Model::linearization")
         ires = [l for l in impl[i] if l.startswith("res ") and not l.startswith(("res adjrt", "res adjust-skipped") + RESULT)]
         iresult = [l for l in impl[i] if l.startswith(RESULT)]
         mresult = [l for l in model[i] if l.startswith(RESULT)]
@@ -911,8 +957,8 @@ def correspond(ctx, corr):
             corr.count("result_points", len(iresult) - 1)
             why = cmp_lines(iresult, mresult, stat)
             if why:
-                corr.disagree("g3-result", {"net": n, "xml": xmltxt[:3000], "alg": hcases[i][2]}, iresult[:40], mresult[:40], why)
-            result_oracle(corr, n, gen, impl[i], hcases[i][2])
+                corr.disagree("g3-result", {"net": n, "xml": xmltxt[:3000], "alg": hcases[i][3]}, iresult[:40], mresult[:40], why)
+            result_oracle(corr, n, gen, impl[i], hcases[i][3])
         elif any(l.startswith("throw") for l in impl[i][-2:]):
             corr.count("result_cases_adjustment_refused")
         # precision(16) dump: rd (fmt x) = q x, fmt (q x) = fmt x, q (q x) = q x on every number of the real dump
